@@ -138,7 +138,35 @@ def c01(cx):
              "strings, message kinds and pipelining.")
 
 
-PROPS = {"C01": c01, "C13": c13, "C05": c05, "C06": c06, "C07": c07, "C08": c08, "C17": c17}
+def c12(cx):
+    return conn_family(
+        cx, "MC_C12", "C12", 1000, 20000,
+        consts_thorough={"MaxKvs": 3},
+        rule="TLC explores startup negotiation on the bounded model: every startup packet of up to MaxKvs pairs over 3 "
+             "keys x {value, empty} (duplicates, missing terminator), 4 configured parameter maps (empty, plain, colliding "
+             "with the built-in keys), version set/unset, auth on/off, refused SSL before, CancelRequest at each stage, then "
+             "one query; it checks the ParameterStatus block (one message per key, built-ins override) and that the "
+             "configuration never changes. The transition cover runs on the real server; TLC validates the auth exchange, "
+             "the ParameterStatus set (each key once, any order), one ReadyForQuery(idle), the client/server parameters "
+             "seen by middleware, parser and statement callbacks, and that the user's global map is unchanged after the "
+             "run. Random driver: random keys, long values, random maps.")
+
+
+def c19(cx):
+    return conn_family(
+        cx, "MC_C19", "C19", 1000, 20000,
+        consts_thorough={"MaxMw": 4, "MaxCmds": 4},
+        rule="TLC explores the session lifecycle on the bounded model: every list of up to MaxMw middlewares each "
+             "succeeding or failing, auth on/off, terminate hook registered or not, every command history up to MaxCmds "
+             "commands over simple Query (1-2 statements), Parse/Bind/Execute/Sync and Terminate; it checks middleware "
+             "order, that a failing middleware prevents the session, that callbacks see the full context, and that "
+             "Terminate runs the hook once and closes. The transition cover runs on the real server where middlewares "
+             "stack markers into the context and every callback reports the marker chain, client/server parameters, "
+             "remote address, type map, liveness of its own command context and cancellation of the previous one; TLC "
+             "validates all of it. Random driver: up to 6 middlewares, 10 commands.")
+
+
+PROPS = {"C19": c19, "C12": c12, "C01": c01, "C13": c13, "C05": c05, "C06": c06, "C07": c07, "C08": c08, "C17": c17}
 
 
 def replay(cx, path):
